@@ -671,7 +671,7 @@ static void zmMulMont2(word c[], const word a[], const word b[],
 
 static size_t zmMulMont2_deep(size_t n)
 {
-	return utilMax(2,
+	return O_OF_W(2 * n) + utilMax(2,
 		zzMul_deep(n, n),
 		zzRedMont_deep(n));
 }
@@ -698,7 +698,7 @@ static void zmSqrMont2(word b[], const word a[], const qr_o* r, void* stack)
 
 static size_t zmSqrMont2_deep(size_t n)
 {
-	return utilMax(2,
+	return O_OF_W(2 * n) + utilMax(2,
 		zzSqr_deep(n),
 		zzRedMont_deep(n));
 }
@@ -740,7 +740,7 @@ static void zmDivMont2(word b[], const word divident[], const word a[],
 
 static size_t zmDivMont2_deep(size_t n)
 {
-	return utilMax(2,
+	return O_OF_W(n) + utilMax(2,
 		zmInvMont2_deep(n),
 		zmMulMont2_deep(n));
 }
